@@ -448,8 +448,21 @@ def stream_call(fn, data):  # summarised in every scenario
     raise NotImplementedError
 
 
+class OneShot:
+    """a one-shot iterable (what a generator-returning stream callable hands back): its chunks can be iterated exactly once"""
+
+    def __init__(self, items):
+        self.items = items
+
+    def __iter__(self):
+        r = self.items
+        self.items = []
+        return iter(r)
+
+
 def setup_stream_callable(vc, mode):
-    """mode: True (plain streaming) | 'bytes' | 'list0'..'list3' (callable returning bytes / a list of k chunks)"""
+    """mode: True (plain streaming) | 'bytes' | 'list0'..'list3' (callable returning bytes / a list of k chunks) | 'oneshot2' (callable
+    returning a one-shot iterable of 2 chunks, e.g. a generator: it can be consumed only once)"""
     calls, results = [], []
     if mode is True:
         return True, calls, results
@@ -461,16 +474,18 @@ def setup_stream_callable(vc, mode):
             r = v.fresh_bytes(f"out{n}")
             results.append([r])
             return v.lift(r)
-        k = int(mode[4:])
+        k = int(mode[-1])
         chunks = [v.fresh_bytes(f"out{n}_{i}") for i in range(k)]
         results.append(chunks)
+        if mode.startswith("oneshot"):
+            return v.new("props.C07:OneShot", items=v.list(chunks))
         return v.list(chunks)
 
     vc.summary("props.C07:stream_call", call)
     return vc.new("props.C07:StreamFn"), calls, results
 
 
-STREAM_MODES = [True, "bytes", "list0", "list1", "list2", "list3"]
+STREAM_MODES = [True, "bytes", "list0", "list1", "list2", "list3", "oneshot2"]
 
 
 @scenario("stream_body.data", functions=[HS + ".state_stream_request_body", HS + ".state_stream_response_body"])
@@ -573,7 +588,7 @@ def s_stream_eom(vc):
 # T2 (bounded): the real HttpLayer (HTTP/1) driven sans-io around the thresholds, against an executable form of the statement
 
 MARK = b"ABCDEFGHIJKLMNOPQRSTUVWXYZ"
-ADDONS = ["none", "stream_true", "upper", "split2", "drop_first", "list_dup"]
+ADDONS = ["none", "stream_true", "upper", "split2", "drop_first", "list_dup", "generator"]
 
 
 def _transform(addon):
@@ -584,6 +599,8 @@ def _transform(addon):
         return lambda d: [d[:1], d[1:]]
     if addon == "list_dup":
         return lambda d: [d, b"-", d] if d else []
+    if addon == "generator":
+        return lambda d: (x for x in (d[:1], d[1:]) if x)      # a generator: can be consumed only once
     if addon == "drop_first":
         def f(d):
             state["n"] += 1
@@ -709,7 +726,7 @@ def bounded(tier, seed):
                                 cases.append((direction, framing, parts, limit, thresh, store, addon))
     if tier == "quick":
         rnd.shuffle(cases)
-        cases = cases[:12000]
+        cases = cases[:14000]
     for direction, framing, parts, limit, thresh, store, addon in cases:
         L = human_size(limit) if limit is not None else None
         S = human_size(thresh) if thresh is not None else None
@@ -825,6 +842,80 @@ def bounded(tier, seed):
                             continue
                         if r.servers or r.to_all_servers():
                             b.fail("c07.addon_response.request_not_forwarded", inp, f"{len(r.servers)} upstream connection(s) opened, upstream got {r.to_all_servers()[:100]!r}")
+    # ---- keep-alive: the over-limit message is NOT the first exchange on the client connection (1 or 2 completed exchanges before it);
+    #      the client must still receive the 413 / 502 error for it
+    for direction in ("request", "response"):
+        for framing in ("cl", "chunked"):
+            for prior in (1, 2):
+                for n in (6, 9):
+                    body = MARK[:n]
+                    for parts in _compositions(body, 2):
+                        inp = dict(case="keepalive", direction=direction, framing=framing, completed_exchanges_before=prior, parts=[p.decode() for p in parts], body_size_limit="5")
+                        b.case(repr(sorted(inp.items())))
+                        r = Run(None, body_size_limit="5")
+                        try:
+                            for i in range(prior):
+                                r.feed_client(b"GET http://example.com/first%d HTTP/1.1\r\nHost: example.com\r\n\r\n" % i)
+                                r.feed_server(b"HTTP/1.1 200 OK\r\nContent-Length: 0\r\n\r\n")
+                            c_off, s_off = len(r.to_client()), len(r.to_all_servers())
+                            done_before = len([f for f in r.flows if "response" in r.hooks_of(f)])
+                            if direction == "request":
+                                r.feed_client(b"POST http://example.com/big HTTP/1.1\r\nHost: example.com\r\n" + (b"Content-Length: %d\r\n\r\n" % n if framing == "cl" else b"Transfer-Encoding: chunked\r\n\r\n"))
+                                for p_ in parts:
+                                    r.feed_client(p_ if framing == "cl" else b"%x\r\n%s\r\n" % (len(p_), p_))
+                            else:
+                                r.feed_client(b"GET http://example.com/big HTTP/1.1\r\nHost: example.com\r\n\r\n")
+                                r.feed_server(b"HTTP/1.1 200 OK\r\n" + (b"Content-Length: %d\r\n\r\n" % n if framing == "cl" else b"Transfer-Encoding: chunked\r\n\r\n"))
+                                for p_ in parts:
+                                    r.feed_server(p_ if framing == "cl" else b"%x\r\n%s\r\n" % (len(p_), p_))
+                        except Exception as e:
+                            b.fail("c07.keepalive.total", inp, f"{type(e).__name__}: {e}")
+                            continue
+                        if done_before != prior:
+                            b.fail("c07.keepalive.prior_exchanges_completed", inp, f"{done_before} of {prior}")
+                            continue
+                        cli = r.to_client()[c_off:]
+                        want = b"HTTP/1.1 413" if direction == "request" else b"HTTP/1.1 502"
+                        if not cli.startswith(want):
+                            b.fail("c07.keepalive.client_receives_error", inp, f"after {prior} completed exchange(s) the client got {cli[:60]!r} for the over-limit {direction}")
+                        fl = r.flows[-1]
+                        if "error" not in r.hooks_of(fl) or fl.live or fl.error is None:
+                            b.fail("c07.keepalive.flow_ends_with_error", inp, f"hooks={r.hooks_of(fl)} live={fl.live}")
+                        if direction == "request" and r.to_all_servers()[s_off:]:
+                            b.fail("c07.keepalive.oversized_body_not_forwarded", inp, f"server got {r.to_all_servers()[s_off:][:60]!r}")
+    # ---- the request carried `Expect: 100-continue` (mitmproxy answers it with an interim 100 itself): an over-limit message later in
+    #      the same exchange must still end with the error response at the client (was KF-C07-2, fixed in a3a04ce5f)
+    for direction in ("request", "response"):
+        for framing in ("cl", "chunked"):
+            if direction == "request" and framing == "cl":
+                continue    # aborted at the headers, before the interim response
+            for parts in _compositions(MARK[:6], 2):
+                inp = dict(case="expect-100-continue", direction=direction, framing=framing, parts=[p.decode() for p in parts], body_size_limit="3")
+                b.case(repr(sorted(inp.items())))
+                r = Run(None, body_size_limit="3")
+                try:
+                    if direction == "request":
+                        r.feed_client(b"POST http://example.com/ HTTP/1.1\r\nHost: example.com\r\nExpect: 100-continue\r\nTransfer-Encoding: chunked\r\n\r\n")
+                        for p_ in parts:
+                            r.feed_client(b"%x\r\n%s\r\n" % (len(p_), p_))
+                    else:
+                        r.feed_client(b"POST http://example.com/ HTTP/1.1\r\nHost: example.com\r\nExpect: 100-continue\r\nContent-Length: 2\r\n\r\n")
+                        r.feed_client(b"ab")
+                        r.feed_server(b"HTTP/1.1 200 OK\r\n" + (b"Content-Length: 6\r\n\r\n" if framing == "cl" else b"Transfer-Encoding: chunked\r\n\r\n"))
+                        for p_ in parts:
+                            r.feed_server(p_ if framing == "cl" else b"%x\r\n%s\r\n" % (len(p_), p_))
+                except Exception as e:
+                    b.fail("c07.expect100.total", inp, f"{type(e).__name__}: {e}")
+                    continue
+                cli = r.to_client()
+                interim = b"HTTP/1.1 100 Continue\r\n\r\n"
+                after = cli[len(interim):] if cli.startswith(interim) else cli
+                want = b"HTTP/1.1 413" if direction == "request" else b"HTTP/1.1 502"
+                fl = r.flows[0]
+                if "error" not in r.hooks_of(fl) or fl.live:
+                    b.fail("c07.expect100.flow_ends_with_error", inp, f"hooks={r.hooks_of(fl)} live={fl.live}")
+                if not after.startswith(want):
+                    b.fail("c07.expect100.client_receives_error", inp, f"client got {cli[:80]!r} and a close; no {want.decode()[-3:]} error response")
     return b
 
 
@@ -836,3 +927,86 @@ def human_size(s):
     if s and s[-1] in mult and s[:-1].isdigit():
         return int(s[:-1]) * mult[s[-1]]
     return int(s)
+
+
+# ---------------------------------------------------------------------------------------------
+# HTTP/1 connection layer between exchanges: the error page for an over-limit body is written only `if not self.response`,
+# so a finished exchange must leave no request/response behind (keep-alive: the over-limit message may be the n-th exchange)
+
+H1S_ = "mitmproxy.proxy.layers.http._http1:Http1Server"
+H1C_ = "mitmproxy.proxy.layers.http._http1:Http1Client"
+
+
+@scenario("http1.mark_done.resets_exchange", functions=["mitmproxy.proxy.layers.http._http1:Http1Connection.mark_done", H1S_ + ".mark_done", H1S_ + ".send"])
+def s_mark_done(vc):
+    from mitmproxy.connection import ConnectionState
+    from mitmproxy.proxy.layers.http._events import ErrorCode
+    server_side = vc.case("layer", ["Http1Server", "Http1Client"]) == "Http1Server"
+    ref = H1S_ if server_side else H1C_
+    last = vc.case("completes", ["request", "response"])
+    client = mk_client(vc)
+    server = mk_server(vc, state=ConnectionState.OPEN, timestamp_start=2.0)
+    ctx = mk_context(vc, client, server)
+    conn = client if server_side else server
+    sid = vc.sym_int("stream_id", lo=1)
+    vc.summary("mitmproxy.net.http.http1.read:expected_http_body_size", lambda v, request, response=None: v.lift(vc.sym_int("E", lo=0)))
+    lay = vc.new(ref, context=ctx, conn=conn, stream_id=sid, buf=vc.new("h11._receivebuffer:ReceiveBuffer", _data=b"", _next_line_search=0, _multiple_lines_search=0),
+                 debug=None, _paused=None, _paused_event_queue=vc.deque([]), request=mk_request(vc), response=mk_response(vc, content=b""),
+                 request_done=(last == "response"), response_done=(last == "request"))
+    lay.state = vc.bound(lay, ref + ".read_body")
+    out = vc.call(ref + ".mark_done", lay, request=(last == "request"), response=(last == "response"))
+    vc.ensure("no_exception", out.ok)
+    if not out.ok:
+        return
+    # keep-alive exchange (HTTP/1.1, no `Connection: close`, length-framed): ready for the next message, nothing left of this one
+    vc.ensure("keepalive.no_output", len(out.trace) == 0)
+    vc.ensure("keepalive.request_forgotten", isnone(lay.request))
+    vc.ensure("keepalive.response_forgotten", isnone(lay.response))
+    vc.ensure("keepalive.flags_reset", And(vc.eq(lay.request_done, False), vc.eq(lay.response_done, False)))
+    vc.ensure("keepalive.next_stream", lay.stream_id == sid + 2 if server_side else isnone(lay.stream_id))
+    vc.ensure("keepalive.reads_headers_next", state_name(vc, lay.state) == "read_headers")
+    if server_side:
+        # ... so that an error for the next exchange is written to the client as an error page
+        err = vc.new(EV + "ResponseProtocolError", stream_id=lay.stream_id, message="Request body exceeds mitmproxy's body_size_limit.", code=ErrorCode.REQUEST_TOO_LARGE)
+        vc.summary("mitmproxy.proxy.layers.http._http1:make_error_response", lambda v, status, message="": v.lift(b"HTTP/1.1 " + str(status.concrete() if hasattr(status, "concrete") else status).encode() + b" error page"))
+        out2 = vc.call(H1S_ + ".send", lay, err)
+        vc.ensure("next_exchange.error_send_ok", out2.ok)
+        if out2.ok:
+            k = trace_kinds(out2.trace)
+            vc.ensure("next_exchange.error_page_then_close", k == ["SendData", "CloseConnection"])
+            if k[:1] == ["SendData"]:
+                vc.ensure("next_exchange.error_page_is_413", out2.trace[0].data == b"HTTP/1.1 413 error page")
+
+
+@scenario("http1server.error_after_interim_response", functions=[H1S_ + ".send"])
+def s_error_after_interim(vc):
+    """the client must receive the error response for an aborted exchange also when an interim (1xx) response was written before
+    (mitmproxy's own `100 Continue` for `Expect: 100-continue`)"""
+    from mitmproxy.connection import ConnectionState
+    from mitmproxy.proxy.layers.http._events import ErrorCode
+    before = vc.case("written_before", ["nothing", "interim_100", "final_200", "switching_101"])
+    interim = before == "interim_100"
+    too_large = vc.case("error", ["REQUEST_TOO_LARGE", "RESPONSE_TOO_LARGE"])
+    client = mk_client(vc)
+    ctx = mk_context(vc, client, mk_server(vc, state=ConnectionState.OPEN, timestamp_start=2.0))
+    lay = vc.new(H1S_, context=ctx, conn=client, stream_id=1, buf=vc.new("h11._receivebuffer:ReceiveBuffer", _data=b"", _next_line_search=0, _multiple_lines_search=0),
+                 debug=None, _paused=None, _paused_event_queue=vc.deque([]), request=mk_request(vc, method=b"POST"), response=None, request_done=False, response_done=False)
+    vc.summary("mitmproxy.net.http.http1.assemble:assemble_response_head", lambda v, response: v.lift(b"HTTP/1.1 100 Continue\r\n\r\n"))
+    vc.summary("mitmproxy.net.http.http1:assemble_response_head", lambda v, response: v.lift(b"HTTP/1.1 100 Continue\r\n\r\n"))
+    vc.summary("mitmproxy.proxy.layers.http._http1:make_error_response", lambda v, status, message="": v.lift(b"error page"))
+    if interim:
+        o1 = vc.call(H1S_ + ".send", lay, vc.new(EV + "ResponseHeaders", stream_id=1, response=mk_response(vc, status_code=100), end_stream=False))
+        vc.ensure("interim.sent", o1.ok and trace_kinds(o1.trace) == ["SendData"])
+    if before in ("final_200", "switching_101"):
+        lay.response = mk_response(vc, status_code=200 if before == "final_200" else 101)
+    err = vc.new(EV + "ResponseProtocolError", stream_id=1, message="body exceeds mitmproxy's body_size_limit.", code=getattr(ErrorCode, too_large))
+    out = vc.call(H1S_ + ".send", lay, err)
+    vc.ensure("no_exception", out.ok)
+    if not out.ok:
+        return
+    k = trace_kinds(out.trace)
+    if before in ("nothing", "interim_100"):
+        vc.ensure("client_receives_error_page_then_close", k == ["SendData", "CloseConnection"])
+    else:
+        vc.ensure("nothing_follows_a_final_head_or_101", k == ["CloseConnection"])
+    vc.ensure("connection_closed", k[-1:] == ["CloseConnection"])
